@@ -1,42 +1,96 @@
-import UmProofs.BrokerSlotsA
+import UmProofs.BrokerSlotsPlanJ
+import UmProofs.BrokerViewPartG
 /-!
 # C01 — Every slot has exactly one owner in every broker view
 
-Work in progress: the store-level invariants (`SlotInv`, `PosInv`, `TwinInv` in
-`UmProofs/BrokerDefs.lean`) are evaluated on every state of every correspondence run (driver op
-`inv`); the theorems below are the layers proved so far. See `tools/props.d/C01.py` (`gaps`).
+`PartitionView v` (`UmProofs/BrokerViewPartB.lean`) is the property for one served whole-cluster
+view `v`:
+* `owned`: the slots of the stable and migrating-out ranges over all master nodes are a
+  permutation of `0 … 16383` (each slot exactly one owner);
+* `replicas`: replica nodes own nothing;
+* `migrating` / `importing`: every migrating-out range sits on the node/proxy its meta names as
+  source, on a master, and there is *exactly one* importing range in the whole view with the same
+  range list and the same meta (epoch, source and destination addresses), sitting on the master
+  the meta names as destination — and symmetrically.
+
+The theorems quantify over **every operation list** (`run ops`, any order of commits, failovers,
+scalings, any allocation choices, any `now`), **every migration limit** and every cluster name /
+proxy address; the induction covers every intermediate state. The single hypothesis is the size
+bound `PlanBound`: no cluster ever has more than 16384 masters (with more masters
+`SLOT_NUM / masters = 0` and the code cuts zero-length ranges; see DESIGN §7 F11 and the
+witnesses in `notes/C01-plan.md`). Ordered-proxy mode is not modelled.
 -/
 namespace Um.Broker.C01
-open Um Um.Slots Um.Broker
+open Um Um.Slots Um.Broker Um.Broker.Plan
 
-/-- `RangeList::compact` (used by every planning, commit and view operation) never changes which
-slots a list of well-formed, pairwise disjoint ranges covers, and produces the normal form. -/
-theorem C01_compact_keeps_slots_partial (l : RangeList) (hwf : ∀ r ∈ l, r.1 ≤ r.2)
+/-- the store invariants hold in every state of every bounded run -/
+theorem C01_store_invariants (ops : List Op) (hb : ∀ k, PlanBound (run (ops.take k))) :
+    ∀ c ∈ (run ops).clusters, PosInv c ∧ TwinInv c ∧ SlotInv c :=
+  cinv_run ops hb
+
+theorem mem_of_findCluster (s : Store) (name : String) (cl : Cluster) (h : s.findCluster name = some cl) :
+    cl ∈ s.clusters := by
+  unfold Store.findCluster at h
+  exact List.mem_of_find?_eq_some h
+
+/-- **C01, whole-cluster query** (`GET /api/v3/clusters/meta/<name>`): in every reachable state,
+under every migration limit, the served view — if the cluster exists — is a partition view. -/
+theorem C01_partition (ops : List Op) (hb : ∀ k, PlanBound (run (ops.take k)))
+    (name : String) (limit : Nat) :
+    clusterView (run ops) name limit = .ok none ∨
+    ∃ v, clusterView (run ops) name limit = .ok (some v) ∧ PartitionView v := by
+  by_cases hn : validName name = true
+  · cases hc : (run ops).findCluster name with
+    | none => left; simp [clusterView, hn, hc]
+    | some cl =>
+      right
+      have hinv := cinv_run ops hb cl (mem_of_findCluster _ _ _ hc)
+      obtain ⟨lc, hl, hlc, _⟩ := limitMigration_spec cl limit hinv
+      exact clusterView_partition _ name limit cl lc hn hc hl hlc.1 hlc.2.1 hlc.2.2
+  · left; simp [clusterView, hn]
+
+/-- **C01, per-proxy query** (`GET /api/v3/proxies/meta/<addr>`): for a proxy that belongs to a
+cluster the served `VProxy` is the projection of a partition view onto that proxy: its local
+master ranges plus its peers' ranges own every slot exactly once (`ownedSlots`), and pending
+ranges keep their unique twins (`proxy_twin_of_migrating/importing` in `BrokerViewPartF`). -/
+theorem C01_partition_proxy (ops : List Op) (hb : ∀ k, PlanBound (run (ops.take k)))
+    (addr : String) (limit : Nat) (p : ProxyRes) (cl : Cluster)
+    (hp : (run ops).findProxy addr = some p) (hc : p.cluster.bind (run ops).findCluster = some cl) :
+    ∃ v, proxyView (run ops) addr limit = .ok (some (proxyOfView addr v)) ∧ PartitionView v ∧
+      (proxyOfView addr v).ownedSlots.Perm (List.range SLOT_NUM) := by
+  have hmem : cl ∈ (run ops).clusters := by
+    cases hpc : p.cluster with
+    | none => simp [hpc] at hc
+    | some n => simp [hpc] at hc; exact mem_of_findCluster _ _ _ hc
+  have hinv := cinv_run ops hb cl hmem
+  obtain ⟨lc, hl, hlc, _⟩ := limitMigration_spec cl limit hinv
+  exact proxyView_partition _ addr limit p cl lc hp hc hl hlc.1 hlc.2.1 hlc.2.2
+
+/-- no served view query panics on a reachable state (`limit_migration`'s and
+`to_slot_range`'s `expect`s are unreachable) -/
+theorem C01_views_total (ops : List Op) (hb : ∀ k, PlanBound (run (ops.take k)))
+    (name : String) (limit : Nat) : ∃ r, clusterView (run ops) name limit = .ok r := by
+  rcases C01_partition ops hb name limit with h | ⟨v, h, _⟩
+  · exact ⟨none, h⟩
+  · exact ⟨some v, h⟩
+
+/-- `RangeList::compact` never changes which slots a list of well-formed, pairwise disjoint
+ranges covers, and produces the normal form (the range-list layer everything rests on) -/
+theorem C01_compact_keeps_slots (l : RangeList) (hwf : ∀ r ∈ l, r.1 ≤ r.2)
     (hnd : (slotsOf l).Nodup) :
     (slotsOf (compact l)).Perm (slotsOf l) ∧ NormalRanges (compact l) :=
   compact_spec l hwf hnd
 
-/-- merging a migrated range list into a stable one (`merge_another`) keeps the slots -/
-theorem C01_merge_keeps_slots_partial (a b : RangeList) (ha : ∀ r ∈ a, r.1 ≤ r.2) (hb : ∀ r ∈ b, r.1 ≤ r.2)
-    (hnd : (slotsOf a ++ slotsOf b).Nodup) :
-    (slotsOf (mergeAnother a b)).Perm (slotsOf a ++ slotsOf b) ∧ NormalRanges (mergeAnother a b) := by
-  unfold mergeAnother
-  have h := compact_spec (a ++ b)
-    (fun r hr => by rcases List.mem_append.mp hr with h | h; exact ha r h; exact hb r h)
-    (by rw [slotsOf_append]; exact hnd)
-  rw [slotsOf_append] at h
-  exact h
-
-/-- non-vacuity: two adjacent ranges given in reverse order -/
-example : compact [(5, 9), (0, 4)] = [(0, 9)] := by
-  simp [compact, normRange, List.mergeSort, List.MergeSort.Internal.splitInTwo, List.merge, startLe,
-    mergeSorted, mergeGo]
-
-/-- the hypothesis "well-formed" is necessary: a reversed (zero-length) range is *swapped* by
-`compact` and then covers two slots — the mechanism of finding F3 -/
+/-- the well-formedness hypothesis is necessary: a reversed (zero-length) range is *swapped* by
+`compact` and then covers two slots — the mechanism of finding F3 (repaired in fd69f7a) -/
 theorem C01_reversed_range_witness : slotsOf (compact [(7, 6)]) = [6, 7] ∧ slotsOf [(7, 6)] = [] := by
   have h : compact [(7, 6)] = [(6, 7)] := by
     simp [compact, normRange, List.mergeSort, mergeSorted, mergeGo]
   rw [h]; decide
+
+/-- non-vacuity: the worked example `exCluster` (the state after 4 × `addProxy`,
+`addCluster c 4`, `addNodes c 4`, `migrate c`: two migrations in flight) satisfies the three
+invariants, and its served view is a partition view -/
+example : PartitionView exView := exView_partition
 
 end Um.Broker.C01
